@@ -68,12 +68,24 @@ pub fn encode(name: &str, is_table: bool) -> String {
 pub fn is_valid(name: &str, is_table: bool) -> bool {
     if name.is_empty() || (!is_table && name.starts_with(TABLE_PREFIX)) {
         false
+    } else if name.chars().any(is_reserved_char) {
+        false
     } else {
         encode(name, is_table).encode_utf16().count() <= 31
     }
 }
 
 // ========================================================================= //
+
+/// Returns true for characters that cannot appear in a (decoded) stream name:
+/// the code points that the name encoding itself produces (a name containing
+/// one would decode to a different name, aliasing another stream), and the
+/// characters that a CFB path treats specially or forbids.
+fn is_reserved_char(ch: char) -> bool {
+    let value = ch as u32;
+    (0x3800..=TABLE_PREFIX as u32).contains(&value)
+        || matches!(ch, '/' | '\\' | ':' | '!')
+}
 
 fn from_b64(value: u32) -> char {
     debug_assert!(value < 64);
